@@ -3,7 +3,7 @@
 import glob, os, subprocess, sys
 res = {}
 for f in sorted(glob.glob('/tmp/mut_out/results/*.json'), key=os.path.getmtime):
-    if not open(f).read().strip():
+    if not open(f).read().strip() or '.s2j' in os.path.basename(f):      # (.s2j* = fragility runs with another VERIF_SEED)
         continue
     sid = os.path.basename(f).split('.')[0]          # C04_2
     res.setdefault(sid, []).append(f)
